@@ -260,6 +260,16 @@ func bytesFailure(o decObs) string {
 		if !o.reencG.ok() {
 			return "generic-value-does-not-reencode"
 		}
+		// the re-encoding decodes, and encodes to itself again (also for the shapes whose
+		// value the Coq model does not follow: floats of any width, uint above MaxInt64)
+		nb := basicnode.Prototype.Any.NewBuilder()
+		if g := guard(func() error { return dagcbor.Decode(nb, bytes.NewReader(o.reenc)) }); !g.ok() {
+			return "generic-reencoding-does-not-decode"
+		}
+		var again bytes.Buffer
+		if g := guard(func() error { return dagcbor.Encode(nb.Build(), &again) }); !g.ok() || !bytes.Equal(again.Bytes(), o.reenc) {
+			return "generic-reencoding-unstable"
+		}
 		// generic load + unwrap == typed load
 		if o.adViaGen.ok() != o.adG.ok() || (o.adG.ok() && !adEq(o.ad, o.adGen)) {
 			return "generic-differs-from-typed-ad"
@@ -474,7 +484,32 @@ func mutateStruct(c *vlib.Ctx, base []kv, origin string) {
 	doBytes(c, rList(rMap(base)), origin, false)
 }
 
+// The theorems decode_output_wf / typed_load_output_reencodes are about inputs of at most
+// 33554432 bytes.  What the real decoders do above that (and above their ~10 MiB allocation
+// budget): an indefinite-length byte string of 11 chunks of 1 MiB as an entry of a chunk.
+func runOversized(c *vlib.Ctx) {
+	chunk := append([]byte{0x5a, 0x00, 0x10, 0x00, 0x00}, make([]byte, 1<<20)...)
+	big := []byte{0x5f}
+	for i := 0; i < 11; i++ {
+		big = append(big, chunk...)
+	}
+	big = append(big, 0xff)
+	blk := rMap([]kv{{"Entries", rList(big)}})
+	o := observe(blk)
+	c.Eval()
+	res := "rejected"
+	if o.genG.ok() || o.chG.ok() {
+		res = "accepted"
+		c.Note(fmt.Sprintf("an 11 MiB indefinite byte string was accepted (generic=%s typed-chunk=%s): the allocation budget did not reject it", o.genG, o.chG))
+	}
+	c.Count("dec:oversized-11MiB-string:" + res)
+	if o.genG.panicked != "" || o.chG.panicked != "" || o.adG.panicked != "" {
+		c.Fail("dec:cbor:panic:oversized-indefinite-string", "panic on an 11 MiB indefinite byte string: "+describe(o), nil)
+	}
+}
+
 func runMalformed(c *vlib.Ctx) {
+	runOversized(c)
 	// 1. every odd item alone, and inside a list and a map
 	for _, v := range oddValues() {
 		doBytes(c, v, "item", false)
